@@ -462,7 +462,6 @@ Proof. intros fs q. reflexivity. Qed.
 Lemma sym_ext_trans : forall a b c, sym_ext a b -> sym_ext b c -> sym_ext a c.
 Proof. intros a b c H1 H2 q. rewrite H2. apply H1. Qed.
 
-Definition fresh_ok (fs : fsys) : Prop := forall p i, stat fs p = Some (SLeaf i) -> i < f_next fs.
 
 Lemma stat_root_some : forall fs, stat fs [] <> None.
 Proof. intros fs. unfold stat, t_stat. simpl. discriminate. Qed.
@@ -908,3 +907,1099 @@ Section Removed.
     eapply kgo_removed; eauto. intros st' c cs' y Hc' Hy. apply IH; assumption.
   Qed.
 End Removed.
+
+(* ================================================================== Part 10: one archive member *)
+Lemma makedirs_rev_symext : forall fuel r fs, sym_ext fs (fst (makedirs_rev fuel fs r)).
+Proof.
+  intros fuel. induction r as [|tail rh IH]; intros fs; simpl; [apply sym_ext_refl|].
+  destruct (is_nil tail); [apply IH|].
+  destruct (sys_exists fuel fs (rev (drop_empty_front rh))); simpl; [apply sys_mkdir_symext|].
+  pose proof (IH fs) as H1.
+  destruct (makedirs_rev fuel fs rh) as [fs1 [[|]|]]; simpl in *; auto;
+    (destruct (str_eqb tail n_dot); [exact H1|]; eapply sym_ext_trans; [exact H1|apply sys_mkdir_symext]).
+Qed.
+
+Lemma drop_empty_front_suffix : forall r, exists e, r = e ++ drop_empty_front r.
+Proof.
+  induction r as [|c r IH]; simpl; [exists []; reflexivity|].
+  destruct (is_nil c); [|exists []; reflexivity].
+  destruct IH as [e He]. exists (c :: e). simpl. f_equal. exact He.
+Qed.
+
+Lemma rstrip_empty_prefix : forall cs, exists e, cs = rstrip_empty cs ++ e.
+Proof.
+  intros cs. unfold rstrip_empty. destruct (drop_empty_front_suffix (rev cs)) as [e He].
+  exists (rev e). rewrite <- rev_app_distr. rewrite <- He. rewrite rev_involutive. reflexivity.
+Qed.
+
+Lemma upper_prefix : forall t, exists rest, t = rstrip_empty (removelast t) ++ rest.
+Proof.
+  intros t. destruct (rstrip_empty_prefix (removelast t)) as [e He].
+  destruct t as [|x t'] eqn:Et; [exists []; reflexivity|].
+  exists (e ++ [last (x :: t') x]). rewrite app_assoc. rewrite <- He.
+  apply app_removelast_last. discriminate.
+Qed.
+
+Section Member.
+  Variable ok : path -> bool.
+  Hypothesis ok_ext : forall p r, ok p = true -> ok (p ++ r) = true.
+  Variable dest : path.
+  Hypothesis ok_dest : forall q, is_prefix dest q = true -> ok q = true.
+  Variable fuel : nat.
+  Variable fs0 : fsys.
+  Variable t : list name.
+  Hypothesis t_nodd : nodd t.
+
+  Definition goodA (fs : fsys) : Prop := good ok dest fuel fs0 fs t.
+  Definition goodB (fs : fsys) : Prop :=
+    inv ok fs0 fs /\ is_dir fs dest = true /\ kres fuel fs [] false [] t = None.
+  Definition safe (fs : fsys) : Prop := inv ok fs0 fs /\ is_dir fs dest = true.
+
+  Lemma goodA_safe : forall fs, goodA fs -> safe fs.
+  Proof. intros fs [H1 H2 H3]. split; assumption. Qed.
+  Lemma goodB_safe : forall fs, goodB fs -> safe fs.
+  Proof. intros fs [H1 [H2 H3]]. split; assumption. Qed.
+
+  Lemma attrs_safe : forall fs m sa, goodA fs -> safe (fst (apply_attrs fuel fs t m sa)).
+  Proof.
+    intros fs m sa [Hi Hg Hd]. unfold apply_attrs.
+    destruct (sa && negb (is_sym (m_kind m))); [|split; assumption].
+    pose proof (sys_chmod_inv ok ok_ext dest ok_dest fuel fs0 fs t (m_mode m) Hi Hg) as H1.
+    pose proof (sys_chmod_dir fuel fs t (m_mode m) dest Hd) as H2.
+    destruct (sys_chmod fuel fs t (m_mode m)) as [fs1 [e|]]; simpl in *; split; assumption.
+  Qed.
+
+  Lemma finish_safeA : forall m sa fs st c k,
+    goodA fs -> safe (x_fs (finish fuel t m sa (mkX fs st c k))).
+  Proof.
+    intros m sa fs st c k Hg. unfold finish. simpl.
+    destruct st; simpl; try (apply goodA_safe; exact Hg).
+    pose proof (attrs_safe fs m sa Hg) as H.
+    destruct (apply_attrs fuel fs t m sa) as [fs2 [|]]; simpl in *; exact H.
+  Qed.
+
+  (* no attributes are applied through links: symlink members never, hard link members since 07fa59b *)
+  Lemma finish_noattrs : forall m sa r,
+    (is_sym (m_kind m) = true \/ sa = false) -> x_fs (finish fuel t m sa r) = x_fs r /\ x_nmk (finish fuel t m sa r) = x_nmk r.
+  Proof.
+    intros m sa r H. unfold finish, apply_attrs.
+    assert (E : sa && negb (is_sym (m_kind m)) = false).
+    { destruct H as [H|H]; rewrite H; [apply andb_false_r|reflexivity]. }
+    rewrite E. destruct (x_st r); simpl; auto.
+  Qed.
+
+  Lemma goodA_ext : forall fs fs', goodA fs -> sym_ext fs fs' -> safe fs' -> goodA fs'.
+  Proof.
+    intros fs fs' [Hi Hg Hd] He [Hi' Hd']. constructor; auto. eapply guard_ext; eauto.
+  Qed.
+
+  Section Body.
+    Variable rec : fsys -> member -> xres.
+    Hypothesis rec_safe : forall fsx fm,
+      (goodA fsx \/ goodB fsx) -> x_nmk (rec fsx fm) = false -> safe (x_fs (rec fsx fm)).
+
+    Definition fb (fsx : fsys) (found : option member) (caught : bool) : xres :=
+      match found with
+      | None => mkX fsx (if caught then MNonfatal else MFatal) true false
+      | Some fm => let r := rec fsx fm in mkX (x_fs r) (x_st r) true (x_nmk r)
+      end.
+
+    Lemma fb_safe : forall fsx found caught,
+      (goodA fsx \/ goodB fsx) -> x_nmk (fb fsx found caught) = false -> safe (x_fs (fb fsx found caught)).
+    Proof.
+      intros fsx found caught Hg Hk. destruct found as [fm|]; simpl in *.
+      - apply rec_safe; assumption.
+      - destruct Hg as [Hg|Hg]; [apply goodA_safe|apply goodB_safe]; assumption.
+    Qed.
+
+    (* after a link could not be made: no attributes are applied through it *)
+    Lemma finish_fb_safe : forall m sa fsx found caught,
+      (is_sym (m_kind m) = true \/ sa = false) ->
+      (goodA fsx \/ goodB fsx) ->
+      x_nmk (finish fuel t m sa (fb fsx found caught)) = false ->
+      safe (x_fs (finish fuel t m sa (fb fsx found caught))).
+    Proof.
+      intros m sa fsx found caught Hm Hg Hk.
+      destruct (finish_noattrs m sa (fb fsx found caught) Hm) as [E1 E2].
+      rewrite E1. rewrite E2 in Hk. apply fb_safe; assumption.
+    Qed.
+
+    Lemma sys_link_fail_same : forall fs a b fs1 e, sys_link fuel fs a b = (fs1, Some e) -> fs1 = fs.
+    Proof.
+      intros fs a b fs1 e. unfold sys_link.
+      destruct (kres fuel fs [] false [] a) as [ls|]; [|intros H; inversion H; auto].
+      destruct (stat fs ls) as [[m|i]|]; try (intros H; inversion H; auto; fail).
+      destruct (kres fuel fs [] false [] b) as [ld|]; [|intros H; inversion H; auto].
+      destruct (stat fs ld); intros H; inversion H; auto.
+    Qed.
+
+    Lemma sys_unlink_fail_same : forall fs a fs1 e, sys_unlink fuel fs a = (fs1, Some e) -> fs1 = fs.
+    Proof.
+      intros fs a fs1 e. unfold sys_unlink.
+      destruct (kres fuel fs [] false [] a) as [ls|]; [|intros H; inversion H; auto].
+      destruct (stat fs ls) as [[m|i]|]; intros H; inversion H; auto.
+    Qed.
+
+    Lemma sys_mknode_fail_same : forall fs a v fs1 e, sys_mknode fuel fs a v = (fs1, Some e) -> fs1 = fs.
+    Proof.
+      intros fs a v fs1 e. unfold sys_mknode.
+      destruct (kres fuel fs [] false [] a) as [ls|]; [|intros H; inversion H; auto].
+      destruct (stat fs ls); intros H; inversion H; auto.
+    Qed.
+
+    Lemma write_goodA : forall fs d, goodA fs -> goodA (fst (sys_write fuel fs t d)).
+    Proof.
+      intros fs d HA. pose proof HA as [Hi Hg Hd].
+      eapply goodA_ext; [exact HA| |split].
+      - apply sys_write_symext. eapply good_fresh; eauto.
+      - apply (sys_write_inv ok ok_ext dest ok_dest); assumption.
+      - apply sys_write_dir; assumption.
+    Qed.
+
+    Lemma mkdir_goodA : forall fs m, goodA fs -> goodA (fst (sys_mkdir fuel fs t m)).
+    Proof.
+      intros fs m HA. pose proof HA as [Hi Hg Hd].
+      eapply goodA_ext; [exact HA| |split].
+      - apply sys_mkdir_symext.
+      - apply (sys_mkdir_inv ok ok_ext dest ok_dest); assumption.
+      - apply sys_mkdir_dir; assumption.
+    Qed.
+
+    Lemma mknode_safe : forall fs v, goodA fs -> safe (fst (sys_mknode fuel fs t v)).
+    Proof.
+      intros fs v [Hi Hg Hd]. split.
+      - apply (sys_mknode_inv ok ok_ext dest ok_dest); assumption.
+      - apply sys_mknode_dir; assumption.
+    Qed.
+
+    Lemma mknode_goodA : forall fs v, i_kind v <> KSym -> goodA fs -> goodA (fst (sys_mknode fuel fs t v)).
+    Proof.
+      intros fs v Hk HA. eapply goodA_ext; [exact HA| |apply mknode_safe; exact HA].
+      apply sys_mknode_symext; [eapply good_fresh; eauto|exact Hk].
+    Qed.
+
+    Lemma root_leaf_no_dir : forall fs i d, stat fs [] = Some (SLeaf i) -> is_dir fs d = false.
+    Proof.
+      intros fs i d H. unfold is_dir, stat, t_stat in *. simpl in H.
+      destruct (f_root fs) as [m es|j]; [discriminate|]. destruct d; reflexivity.
+    Qed.
+
+    (* makelink() of a symlink member: unlink the existing name, then create the link at the same path *)
+    Lemma unlink_then_mknode : forall fs fs1 v,
+      goodA fs -> sys_unlink fuel fs t = (fs1, None) ->
+      safe (fst (sys_mknode fuel fs1 t v)) /\
+      (forall fs2 e, sys_mknode fuel fs1 t v = (fs2, Some e) -> fs2 = fs1 /\ goodB fs1).
+    Proof.
+      intros fs fs1 v HA Hu. pose proof HA as [Hi Hg Hd]. unfold sys_unlink in Hu.
+      destruct (kres fuel fs [] false [] t) as [l|] eqn:Ek; [|discriminate].
+      destruct (stat fs l) as [[m|i]|] eqn:Es; try discriminate. inversion Hu; subst fs1; clear Hu.
+      pose proof (loc_nofollow ok dest ok_dest fuel _ _ _ _ Hi Hg Ek) as Hl.
+      assert (Hne : l <> []).
+      { intros E. subst l. rewrite (root_leaf_no_dir _ _ dest Es) in Hd. discriminate. }
+      assert (Hi1 : inv ok fs0 (put fs l None)) by (apply inv_put_nonleaf; auto; intros j; discriminate).
+      assert (Hd1 : is_dir (put fs l None) dest = true) by (apply is_dir_put; eauto).
+      unfold sys_mknode.
+      destruct (kres fuel (put fs l None) [] false [] t) as [x|] eqn:Ek1.
+      - assert (Hp : is_prefix l [] = false) by (destruct l; [contradiction|reflexivity]).
+        destruct (kres_removed fs l i Es Hne fuel [] false [] t x Hp Ek1) as [E|E].
+        2:{ rewrite Ek in E. inversion E. subst x.
+            rewrite (removed_below fs l Hne l (is_prefix_refl l)). simpl. split.
+            - split; [apply inv_create; auto|apply is_dir_create; auto].
+              apply (removed_below fs l Hne l (is_prefix_refl l)).
+            - intros fs2 e H. discriminate. }
+        subst x. rewrite (removed_below fs l Hne l (is_prefix_refl l)). simpl. split.
+        + split; [apply inv_create; auto|apply is_dir_create; auto].
+          apply (removed_below fs l Hne l (is_prefix_refl l)).
+        + intros fs2 e H. discriminate.
+      - simpl. split; [split; assumption|].
+        intros fs2 e H. inversion H; subst. split; [reflexivity|]. unfold goodB. auto.
+    Qed.
+
+    Definition lnk_cond (fs : fsys) (s : option (list name)) (m : member) (sa : bool) : Prop :=
+      m_kind m = MLnk -> match s with None => True | Some src => sa = false /\ guard dest fuel fs src end.
+
+    Lemma body_safeA : forall fs s m sa nested before whole,
+      goodA fs -> lnk_cond fs s m sa ->
+      x_nmk (member_body rec fuel fs t s m sa nested before whole) = false ->
+      safe (x_fs (member_body rec fuel fs t s m sa nested before whole)).
+    Proof.
+      intros fs s m sa nested before whole HA Hl Hk. unfold member_body in *.
+      destruct (m_kind m) eqn:Ekind.
+      - (* MReg *)
+        destruct nested; [apply goodA_safe; exact HA|].
+        pose proof (write_goodA fs (m_data m) HA) as Hw.
+        destruct (sys_write fuel fs t (m_data m)) as [fs1 [e|]]; simpl in Hw.
+        + apply goodA_safe. exact Hw.
+        + apply finish_safeA. exact Hw.
+      - (* MDir *)
+        pose proof (mkdir_goodA fs 448 HA) as Hw.
+        destruct (sys_mkdir fuel fs t 448) as [fs1 [[|]|]]; simpl in Hw.
+        + apply finish_safeA. exact Hw.
+        + apply goodA_safe. exact Hw.
+        + apply finish_safeA. exact Hw.
+      - (* MSym *)
+        assert (Hm : is_sym (m_kind m) = true \/ sa = false) by (left; rewrite Ekind; reflexivity).
+        destruct (sys_lexists fuel fs t).
+        + destruct (sys_unlink fuel fs t) as [fs1 [e|]] eqn:Eu.
+          * apply sys_unlink_fail_same in Eu. subst fs1.
+            apply (finish_fb_safe m sa fs (find_member (sym_search_name m) whole) true); auto.
+          * destruct (unlink_then_mknode fs fs1 (mknode_of m) HA Eu) as [H1 H2].
+            destruct (sys_mknode fuel fs1 t (mknode_of m)) as [fs2 [e|]] eqn:Em; simpl in H1.
+            { destruct (H2 fs2 e eq_refl) as [E HB]. subst fs2.
+              apply (finish_fb_safe m sa fs1 (find_member (sym_search_name m) whole) true); auto. }
+            { destruct (finish_noattrs m sa (mkX fs2 MOk false false) Hm) as [E1 _]. rewrite E1. exact H1. }
+        + pose proof (mknode_safe fs (mknode_of m) HA) as H1.
+          destruct (sys_mknode fuel fs t (mknode_of m)) as [fs2 [e|]] eqn:Em; simpl in H1.
+          * apply sys_mknode_fail_same in Em. subst fs2.
+            apply (finish_fb_safe m sa fs (find_member (sym_search_name m) whole) true); auto.
+          * destruct (finish_noattrs m sa (mkX fs2 MOk false false) Hm) as [E1 _]. rewrite E1. exact H1.
+      - (* MLnk *)
+        specialize (Hl Ekind).
+        destruct s as [src|]; [|apply goodA_safe; exact HA].
+        destruct Hl as [Hsa Hgs]. subst sa.
+        assert (Hm : is_sym (m_kind m) = true \/ false = false) by (right; reflexivity).
+        pose proof HA as [Hi Hg Hd].
+        destruct (sys_exists fuel fs src).
+        + pose proof (sys_link_inv ok ok_ext dest ok_dest fuel fs0 fs src t Hi Hgs Hg) as H1.
+          pose proof (sys_link_dir fuel fs src t dest Hd) as H2.
+          destruct (sys_link fuel fs src t) as [fs1 [e|]] eqn:El; simpl in H1, H2.
+          * apply sys_link_fail_same in El. subst fs1.
+            apply (finish_fb_safe m false fs (find_member (normname (m_link m)) before) true); auto.
+          * destruct (finish_noattrs m false (mkX fs1 MOk false false) Hm) as [E1 _]. rewrite E1.
+            split; assumption.
+        + apply (finish_fb_safe m false fs (find_member (normname (m_link m)) before) false); auto.
+      - (* MFifo *)
+        assert (Hns : i_kind (mknode_of m) <> KSym) by (unfold mknode_of; rewrite Ekind; discriminate).
+        pose proof (mknode_goodA fs (mknode_of m) Hns HA) as Hw.
+        destruct (sys_mknode fuel fs t (mknode_of m)) as [fs1 [e|]]; simpl in Hw.
+        + apply goodA_safe. exact Hw.
+        + apply finish_safeA. exact Hw.
+      - (* MChr *)
+        assert (Hns : i_kind (mknode_of m) <> KSym) by (unfold mknode_of; rewrite Ekind; discriminate).
+        pose proof (mknode_goodA fs (mknode_of m) Hns HA) as Hw.
+        destruct (sys_mknode fuel fs t (mknode_of m)) as [fs1 [e|]]; simpl in Hw.
+        + apply goodA_safe. exact Hw.
+        + apply finish_safeA. exact Hw.
+      - (* MBlk *)
+        assert (Hns : i_kind (mknode_of m) <> KSym) by (unfold mknode_of; rewrite Ekind; discriminate).
+        pose proof (mknode_goodA fs (mknode_of m) Hns HA) as Hw.
+        destruct (sys_mknode fuel fs t (mknode_of m)) as [fs1 [e|]]; simpl in Hw.
+        + apply goodA_safe. exact Hw.
+        + apply finish_safeA. exact Hw.
+    Qed.
+
+    Lemma body_safeB : forall fs m sa before whole,
+      goodB fs ->
+      x_nmk (member_body rec fuel fs t None m sa true before whole) = false ->
+      safe (x_fs (member_body rec fuel fs t None m sa true before whole)).
+    Proof.
+      intros fs m sa before whole HB Hk. pose proof HB as [Hi [Hd Hn]].
+      assert (Hs : safe fs) by (split; assumption).
+      unfold member_body in *.
+      destruct (m_kind m) eqn:Ekind; try exact Hs.
+      - unfold sys_mkdir. rewrite Hn. simpl. exact Hs.
+      - assert (Hm : is_sym (m_kind m) = true \/ sa = false) by (left; rewrite Ekind; reflexivity).
+        unfold sys_lexists, sys_mknode in Hk |- *. rewrite Hn in Hk |- *. cbv iota beta in Hk |- *.
+        rewrite Hn in Hk |- *. cbv iota beta in Hk |- *.
+        apply (finish_fb_safe m sa fs (find_member (sym_search_name m) whole) true); auto.
+      - unfold sys_mknode. rewrite Hn. simpl. exact Hs.
+      - unfold sys_mknode. rewrite Hn. simpl. exact Hs.
+      - unfold sys_mknode. rewrite Hn. simpl. exact Hs.
+    Qed.
+  End Body.
+
+  (* TarFile._extract_member: every state reached is confined, unless a member
+     re-extracted by the fall-back had to create directories (x_nmk) *)
+  Lemma extract_member_safe : forall depth fs s m sa nested before whole,
+    ((goodA fs /\ lnk_cond fs s m sa) \/ (nested = true /\ s = None /\ goodB fs)) ->
+    x_nmk (extract_member depth fuel fs t s m sa nested before whole) = false ->
+    safe (x_fs (extract_member depth fuel fs t s m sa nested before whole)).
+  Proof.
+    induction depth as [|d IH]; intros fs s m sa nested before whole Hg Hk.
+    - simpl. destruct Hg as [[HA _]|[_ [_ HB]]]; [apply goodA_safe|apply goodB_safe]; assumption.
+    - cbn [extract_member] in *.
+      set (upper := rstrip_empty (removelast t)) in *.
+      assert (Hrec : forall fsx fm, goodA fsx \/ goodB fsx ->
+                x_nmk (extract_member d fuel fsx t None fm true true [] whole) = false ->
+                safe (x_fs (extract_member d fuel fsx t None fm true true [] whole))).
+      { intros fsx fm [HA|HB] Hx; apply IH; auto. left. split; [exact HA|]. intros _. exact I. }
+      destruct (sys_exists fuel fs upper) eqn:Ex; simpl in Hk |- *.
+      + (* parent directories exist *)
+        rewrite andb_false_r in Hk. simpl in Hk.
+        destruct Hg as [[HA Hl]|[Hn [Hs HB]]].
+        * apply body_safeA; auto.
+        * subst nested s. apply body_safeB; auto.
+      + (* os.makedirs(upperdirs) *)
+        rewrite andb_true_r in Hk.
+        destruct Hg as [[HA Hl]|[Hn [Hs HB]]].
+        2:{ subst nested. exfalso.
+            destruct (makedirs fuel fs upper) as [fsm [e|]]; simpl in Hk; discriminate. }
+        assert (HAm : goodA (fst (makedirs fuel fs upper))).
+        { unfold makedirs. apply makedirs_rev_good; auto.
+          rewrite rev_involutive. apply upper_prefix. }
+        assert (Hlm : lnk_cond (fst (makedirs fuel fs upper)) s m sa).
+        { intros E. specialize (Hl E). destruct s as [src|]; auto. destruct Hl as [H1 H2]. split; auto.
+          eapply guard_ext; [|exact H2]. unfold makedirs. apply makedirs_rev_symext. }
+        destruct (makedirs fuel fs upper) as [fsm [e|]]; simpl in *.
+        * apply goodA_safe. exact HAm.
+        * apply orb_false_iff in Hk as [_ Hk]. apply body_safeA; auto.
+  Qed.
+End Member.
+
+(* ================================================================== Part 11: TarFile.extract with Bob's filter *)
+Lemma is_abs_lstrip : forall s, is_abs (lstrip_slash s) = false.
+Proof.
+  induction s as [|c r IH]; simpl; auto.
+  destruct (c =? SLASH) eqn:E; [exact IH|]. simpl. exact E.
+Qed.
+
+Definition all_empty (e : list name) : Prop := forallb (@is_nil N) e = true.
+
+Lemma drop_empty_front_split : forall r, exists e, r = e ++ drop_empty_front r /\ all_empty e.
+Proof.
+  induction r as [|c r IH]; simpl; [exists []; split; reflexivity|].
+  destruct (is_nil c) eqn:E; [|exists []; split; reflexivity].
+  destruct IH as [e [He Ha]]. exists (c :: e). split; [simpl; f_equal; exact He|].
+  unfold all_empty in *. simpl. rewrite E, Ha. reflexivity.
+Qed.
+
+Lemma all_empty_rev : forall e, all_empty e -> all_empty (rev e).
+Proof.
+  unfold all_empty. intros e H. rewrite forallb_forall in *. intros x Hx. apply H. apply in_rev. exact Hx.
+Qed.
+
+Lemma rstrip_empty_split : forall cs, exists e, cs = rstrip_empty cs ++ e /\ all_empty e.
+Proof.
+  intros cs. unfold rstrip_empty. destruct (drop_empty_front_split (rev cs)) as [e [He Ha]].
+  exists (rev e). split; [|apply all_empty_rev; exact Ha].
+  rewrite <- rev_app_distr. rewrite <- He. rewrite rev_involutive. reflexivity.
+Qed.
+
+Lemma is_nil_skip : forall c : name, is_nil c = true -> skip_comp c = true.
+Proof. intros c H. destruct c; [reflexivity|discriminate]. Qed.
+
+Lemma pygo_all_empty : forall (rec : pyres_t) fs st e cur, all_empty e -> pygo rec fs st e cur = Some (cur, true).
+Proof.
+  intros rec fs st. induction e as [|c e IH]; intros cur H; simpl; [reflexivity|].
+  unfold all_empty in H. simpl in H. apply andb_true_iff in H as [H1 H2].
+  rewrite (is_nil_skip c H1). apply IH. exact H2.
+Qed.
+
+Lemma lexnorm_acc_app : forall a b acc, lexnorm_acc (a ++ b) acc = lexnorm_acc b (lexnorm_acc a acc).
+Proof.
+  induction a as [|c a IH]; intros b acc; simpl; [reflexivity|].
+  destruct (skip_comp c); [apply IH|]. destruct (is_dotdot c); apply IH.
+Qed.
+
+Lemma lexnorm_acc_empty : forall e acc, all_empty e -> lexnorm_acc e acc = acc.
+Proof.
+  induction e as [|c e IH]; intros acc H; simpl; [reflexivity|].
+  unfold all_empty in H. simpl in H. apply andb_true_iff in H as [H1 H2].
+  rewrite (is_nil_skip c H1). apply IH. exact H2.
+Qed.
+
+(* trailing slashes do not matter to realpath *)
+Lemma realpath_rstrip : forall fuel fs cs, realpath fuel fs (rstrip_empty cs) = realpath fuel fs cs.
+Proof.
+  intros fuel fs cs. destruct (rstrip_empty_split cs) as [e [He Ha]].
+  unfold realpath. destruct fuel as [|f]; [reflexivity|]. simpl.
+  rewrite He at 2. rewrite pygo_app.
+  destruct (pygo (fun st c cs0 => pyreal f fs st c cs0) fs [] (rstrip_empty cs) []) as [[q [|]]|]; auto.
+  - rewrite pygo_all_empty by exact Ha. reflexivity.
+  - unfold lexnorm. rewrite (lexnorm_acc_app q e []). rewrite (lexnorm_acc_empty e _ Ha). reflexivity.
+Qed.
+
+Section Extract.
+  Variable ok : path -> bool.
+  Hypothesis ok_ext : forall p r, ok p = true -> ok (p ++ r) = true.
+  Variable dest : path.
+  Hypothesis ok_dest : forall q, is_prefix dest q = true -> ok q = true.
+  Hypothesis dest_nodd : nodd dest.
+  Variable fuel : nat.
+  Variable fs0 : fsys.
+
+  Lemma tar_extract_safe : forall fs m sa before whole,
+    safe ok dest fs0 fs ->
+    (m_kind m = MLnk -> sa = false) ->
+    x_nmk (tar_extract fuel fs dest m sa before whole) = false ->
+    safe ok dest fs0 (x_fs (tar_extract fuel fs dest m sa before whole)).
+  Proof.
+    intros fs m sa before whole [Hi Hd] Hsa Hk. unfold tar_extract in *.
+    destruct (tar_filter fuel fs dest m) as [name'|] eqn:Ef; [|split; assumption].
+    unfold tar_filter in Ef.
+    set (nm := if is_abs (m_name m) then lstrip_slash (m_name m) else m_name m) in *.
+    destruct (has_dotdot nm) eqn:Edd; [discriminate|].
+    destruct (inside dest (realpath fuel fs (join_dest dest nm))) eqn:Ein; simpl in Ef; [|discriminate].
+    assert (Hna : is_abs nm = false).
+    { unfold nm. destruct (is_abs (m_name m)) eqn:E; [apply is_abs_lstrip|exact E]. }
+    assert (Hlnk : is_lnk (m_kind m) = true -> inside dest (realpath fuel fs (join_dest dest (m_link m))) = true).
+    { intros E. rewrite E in Ef. simpl in Ef.
+      destruct (inside dest (realpath fuel fs (join_dest dest (m_link m)))); [reflexivity|discriminate]. }
+    assert (En : name' = nm).
+    { destruct (is_lnk (m_kind m) && negb (inside dest (realpath fuel fs (join_dest dest (m_link m))))); inversion Ef; reflexivity. }
+    subst name'. unfold join_dest in Ein. rewrite Hna in Ein.
+    set (t := rstrip_empty (dest ++ comps_of nm)) in *.
+    assert (Hnodd : nodd t).
+    { assert (H : nodd (dest ++ comps_of nm)).
+      { unfold nodd. rewrite existsb_app. unfold nodd in dest_nodd. rewrite dest_nodd. exact Edd. }
+      destruct (rstrip_empty_prefix (dest ++ comps_of nm)) as [e He]. fold t in He. rewrite He in H.
+      apply nodd_app in H. tauto. }
+    apply extract_member_safe; auto.
+    left. split.
+    - constructor; auto. unfold guard, t. rewrite realpath_rstrip. exact Ein.
+    - intros Ek. simpl in Ek. rewrite Ek. simpl. split; [apply Hsa; exact Ek|].
+      unfold guard. apply Hlnk. rewrite Ek. reflexivity.
+  Qed.
+End Extract.
+
+(* ================================================================== Part 12: canonical paths without symbolic links *)
+
+Lemma plain_cons : forall c cs, plain (c :: cs) -> skip_comp c = false /\ is_dotdot c = false /\ plain cs.
+Proof.
+  unfold plain. intros c cs H. simpl in H. apply andb_true_iff in H as [H1 H2].
+  apply andb_true_iff in H1 as [H3 H4]. apply negb_true_iff in H3. apply negb_true_iff in H4. auto.
+Qed.
+
+Lemma plain_app : forall a b, plain (a ++ b) -> plain a /\ plain b.
+Proof. unfold plain. intros a b H. rewrite forallb_app in H. apply andb_true_iff in H. exact H. Qed.
+
+Lemma plain_nodd : forall cs, plain cs -> nodd cs.
+Proof.
+  induction cs as [|c cs IH]; intros H; [reflexivity|].
+  apply plain_cons in H as [_ [H2 H3]]. unfold nodd. simpl. rewrite H2. apply IH. exact H3.
+Qed.
+
+(* where no link is on the way the kernel walks to the path itself *)
+Lemma kgo_plain : forall (rec : kres_t) fs st fw cs cur x,
+  plain cs ->
+  (forall a b, cs = a ++ b -> a <> [] -> sym_at fs (cur ++ a) = None) ->
+  kgo rec fs st fw cs cur = Some x -> x = cur ++ cs.
+Proof.
+  intros rec fs st fw. induction cs as [|c rest IH]; intros cur x Hp Hs Hk; simpl in Hk.
+  - inversion Hk. rewrite app_nil_r. reflexivity.
+  - apply plain_cons in Hp as [H1 [H2 H3]]. rewrite H1, H2 in Hk.
+    rewrite (Hs [c] rest eq_refl ltac:(discriminate)) in Hk.
+    destruct (stat fs (cur ++ [c])) as [[m|i]|].
+    + apply IH in Hk; auto.
+      * rewrite Hk. rewrite <- app_assoc. reflexivity.
+      * intros a b E Ha. rewrite <- app_assoc. simpl. apply (Hs (c :: a) b); [rewrite E; reflexivity|discriminate].
+    + destruct rest; [|discriminate]. inversion Hk. reflexivity.
+    + destruct rest; [|discriminate]. inversion Hk. reflexivity.
+Qed.
+
+Lemma kres_plain : forall fuel fs fw cs x,
+  plain cs -> (forall a b, cs = a ++ b -> a <> [] -> sym_at fs a = None) ->
+  kres fuel fs [] fw [] cs = Some x -> x = cs.
+Proof.
+  intros fuel fs fw cs x Hp Hs Hk. destruct fuel; simpl in Hk; [discriminate|].
+  apply kgo_plain in Hk; auto.
+Qed.
+
+(* a new inode is reachable only through the name it was created with *)
+Lemma create_leaf_unique : forall fs l v q,
+  fresh_ok fs -> stat fs l = None -> stat (create fs l v) q = Some (SLeaf (f_next fs)) -> q = l.
+Proof.
+  intros fs l v q Hf Hn Hq. unfold stat, create in Hq; simpl in Hq.
+  destruct (is_prefix l q) eqn:Ep.
+  - assert (Hl : l <> []) by (intros E; subst; apply (stat_root_some fs); exact Hn).
+    assert (Hg : t_get (f_root fs) l = None).
+    { unfold stat, t_stat in Hn. destruct (t_get (f_root fs) l); [discriminate|reflexivity]. }
+    destruct (t_stat_put_at_below l (f_root fs) (Some (SLeaf (f_next fs))) q Hl Ep (or_intror Hg)) as [[E _]|[_ H]]; auto.
+    rewrite H in Hq. discriminate.
+  - rewrite t_stat_put_other in Hq by exact Ep. pose proof (Hf q _ Hq). lia.
+Qed.
+
+Lemma same_outside_refl : forall ok fs, same_outside ok fs fs.
+Proof. intros ok fs p Hp. split; auto. Qed.
+
+Lemma same_outside_trans : forall ok a b c, same_outside ok a b -> same_outside ok b c -> same_outside ok a c.
+Proof.
+  intros ok a b c H1 H2 p Hp. destruct (H1 p Hp) as [A1 A2]. destruct (H2 p Hp) as [B1 B2]. split.
+  - rewrite B1. exact A1.
+  - intros i Hi. rewrite B2 by (rewrite A1; exact Hi). apply A2. exact Hi.
+Qed.
+
+Lemma same_outside_weaken : forall (ok ok' : path -> bool) a b,
+  (forall p, ok' p = false -> ok p = false) -> same_outside ok a b -> same_outside ok' a b.
+Proof. intros ok ok' a b H H1 p Hp. apply H1. apply H. exact Hp. Qed.
+
+(* ================================================================== Part 13: TarHelper.__extractPackage *)
+Section Loop.
+  Variable dest audit : path.
+  Variable fuel : nat.
+  Hypothesis dest_plain : plain dest.
+  Hypothesis audit_plain : plain audit.
+  Hypothesis Hda : is_prefix dest audit = false.
+  Hypothesis Had : is_prefix audit dest = false.
+
+  Definition ok1 : path -> bool := is_prefix dest.
+  Definition okA : path -> bool := allowed dest audit.
+
+  Lemma ok1_ext : forall p r, ok1 p = true -> ok1 (p ++ r) = true.
+  Proof. intros. apply is_prefix_app_r. assumption. Qed.
+  Lemma ok1_dest : forall q, is_prefix dest q = true -> ok1 q = true.
+  Proof. auto. Qed.
+  Lemma okA_ok1 : forall p, okA p = false -> ok1 p = false.
+  Proof. unfold okA, allowed, ok1. intros p H. apply orb_false_iff in H. tauto. Qed.
+  Lemma okA_audit_below : forall q, is_prefix audit q = true -> okA q = true.
+  Proof. unfold okA, allowed. intros q H. rewrite H. apply orb_true_r. Qed.
+  Lemma ok1_audit : ok1 audit = false.
+  Proof. exact Hda. Qed.
+
+  Lemma audit_prefix_not_ok1 : forall a b, audit = a ++ b -> ok1 a = false.
+  Proof.
+    intros a b E. unfold ok1. destruct (is_prefix dest a) eqn:H; auto.
+    rewrite E in Hda. rewrite (is_prefix_app_r _ _ b H) in Hda. discriminate.
+  Qed.
+
+  Record linv (fs : fsys) : Prop := mkLinv {
+    l_inv : inv ok1 fs fs;
+    l_dir : is_dir fs dest = true;
+    l_areg : stat fs audit = None \/
+             exists i d m, stat fs audit = Some (SLeaf i) /\ inode_of fs i = Some (mkInode KReg d m);
+    l_aown : forall q i, stat fs audit = Some (SLeaf i) -> stat fs q = Some (SLeaf i) -> q = audit
+  }.
+
+  Lemma inv_rebase : forall ok a b, inv ok a b -> inv ok b b.
+  Proof. intros ok a b [H1 H2 H3 H4]. constructor; auto. apply same_outside_refl. Qed.
+
+  Lemma member_step : forall fs m sa before whole,
+    linv fs -> (m_kind m = MLnk -> sa = false) ->
+    x_nmk (tar_extract fuel fs dest m sa before whole) = false ->
+    linv (x_fs (tar_extract fuel fs dest m sa before whole)) /\
+    same_outside ok1 fs (x_fs (tar_extract fuel fs dest m sa before whole)).
+  Proof.
+    intros fs m sa before whole [Hi Hd Hr Ho] Hsa Hk.
+    destruct (tar_extract_safe ok1 ok1_ext dest ok1_dest (plain_nodd _ dest_plain) fuel fs fs m sa before whole
+                (conj Hi Hd) Hsa Hk) as [Hi' Hd'].
+    set (fs' := x_fs (tar_extract fuel fs dest m sa before whole)) in *.
+    destruct (inv_out _ _ _ Hi' audit ok1_audit) as [Ea Eb].
+    split; [|exact (inv_out _ _ _ Hi')].
+    constructor.
+    - eapply inv_rebase; eauto.
+    - exact Hd'.
+    - rewrite Ea. destruct Hr as [Hr|[i [d [mm [H1 H2]]]]]; [left; exact Hr|].
+      right. exists i, d, mm. split; [exact H1|]. rewrite (Eb i H1). exact H2.
+    - intros q i Sa Sq. rewrite Ea in Sa. destruct (ok1 q) eqn:Eq.
+      + exfalso. apply (inv_sep _ _ _ Hi' q audit i Eq ok1_audit Sq). rewrite Ea. exact Sa.
+      + destruct (inv_out _ _ _ Hi' q Eq) as [Eq1 _]. rewrite Eq1 in Sq. eapply Ho; eauto.
+  Qed.
+
+  Lemma audit_walk : forall fs fw x, linv fs -> kres fuel fs [] fw [] audit = Some x -> x = audit.
+  Proof.
+    intros fs fw x [Hi Hd Hr Ho] Hk. apply kres_plain in Hk; auto.
+    intros a b E Ha. destruct b as [|c b].
+    - rewrite app_nil_r in E. subst a. unfold sym_at.
+      destruct Hr as [Hr|[i [d [m [H1 H2]]]]]; [rewrite Hr; reflexivity|]. rewrite H1, H2. reflexivity.
+    - apply (inv_nosym _ _ _ Hi). eapply audit_prefix_not_ok1; eauto.
+  Qed.
+
+  Lemma under_dest_not_audit : forall p, ok1 p = true -> is_prefix audit p = false.
+  Proof.
+    intros p Hp. destruct (is_prefix audit p) eqn:E; auto. unfold ok1 in Hp.
+    destruct (is_prefix_comparable dest audit p Hp E) as [H|H]; congruence.
+  Qed.
+
+  Lemma audit_step : forall fs d,
+    linv fs ->
+    linv (fst (sys_write fuel fs audit d)) /\ same_outside okA fs (fst (sys_write fuel fs audit d)).
+  Proof.
+    intros fs d HL. pose proof HL as [Hi Hd Hr Ho]. unfold sys_write.
+    destruct (kres fuel fs [] true [] audit) as [l|] eqn:Ek; [|split; [exact HL|apply same_outside_refl]].
+    apply (audit_walk fs true l HL) in Ek. subst l.
+    destruct (stat fs audit) as [[m|i]|] eqn:Es; [split; [exact HL|apply same_outside_refl]| |].
+    - (* existing audit file *)
+      destruct (inode_of fs i) as [[[] dd mm]|] eqn:Ei; try (split; [exact HL|apply same_outside_refl]).
+      simpl. split.
+      + constructor.
+        * destruct Hi as [H1 H2 H3 H4]. constructor; auto; [apply same_outside_refl|].
+          intros q Hq. rewrite <- (H4 q Hq).
+          apply (sym_at_set_inode_nonsym fs i (mkInode KReg d mm) (mkInode KReg dd mm) Ei); simpl; discriminate.
+        * exact Hd.
+        * right. exists i, d, mm. split; [exact Es|]. unfold inode_of, set_inode; simpl. apply ino_get_set_same.
+        * exact (l_aown fs HL).
+      + intros q Hq. split; [reflexivity|]. intros j Sj. unfold inode_of, set_inode; simpl.
+        apply ino_get_set_other. intros E. subst j.
+        rewrite (Ho q i eq_refl Sj) in Hq. unfold okA, allowed in Hq. rewrite is_prefix_refl in Hq.
+        rewrite orb_true_r in Hq. discriminate.
+    - (* new audit file *)
+      simpl.
+      assert (Hf : fresh_ok fs) by (intros p j; apply (inv_fresh _ _ _ Hi)).
+      assert (Hne : audit <> []) by (intros E; rewrite E in Es; apply (stat_root_some fs); exact Es).
+      assert (Hg : t_get (f_root fs) audit = None).
+      { unfold stat, t_stat in Es. destruct (t_get (f_root fs) audit); [discriminate|reflexivity]. }
+      assert (Hat : stat (create fs audit (mkInode KReg d DEFAULT_FILE_MODE)) audit = Some (SLeaf (f_next fs)) \/
+                    stat (create fs audit (mkInode KReg d DEFAULT_FILE_MODE)) audit = None).
+      { destruct (t_stat_put_at_below audit (f_root fs) (Some (SLeaf (f_next fs))) audit Hne (is_prefix_refl _) (or_intror Hg))
+          as [[_ H]|[H _]]; [exact H|contradiction]. }
+      split.
+      + constructor.
+        * constructor.
+          { apply same_outside_refl. }
+          { intros p j Sp. unfold stat, create in Sp; simpl in Sp. apply t_stat_put_leaf in Sp as [Sp|Sp]; simpl.
+            - pose proof (Hf p j Sp). lia.
+            - inversion Sp. lia. }
+          { intros p q j Hp Hq Sp Sq.
+            assert (Sp' : stat fs p = Some (SLeaf j)).
+            { unfold stat, create in Sp; simpl in Sp. rewrite t_stat_put_other in Sp; [exact Sp|].
+              apply under_dest_not_audit. exact Hp. }
+            unfold stat, create in Sq; simpl in Sq. apply t_stat_put_leaf in Sq as [Sq|Sq].
+            - eapply (inv_sep _ _ _ Hi p q j); eauto.
+            - inversion Sq; subst j. pose proof (Hf p _ Sp'). lia. }
+          { intros q Hq.
+            assert (Hk : i_kind (mkInode KReg d DEFAULT_FILE_MODE) <> KSym) by (simpl; discriminate).
+            rewrite (sym_at_create_nonsym fs audit _ Hf Es Hk q).
+            apply (inv_nosym _ _ _ Hi). exact Hq. }
+        * apply is_dir_create; assumption.
+        * destruct Hat as [H|H]; [|left; exact H]. right. exists (f_next fs), d, DEFAULT_FILE_MODE.
+          split; [exact H|]. unfold inode_of, create; simpl. apply ino_get_set_same.
+        * intros q j Sa Sq. destruct Hat as [H|H]; rewrite H in Sa; [|discriminate]. inversion Sa; subst j.
+          eapply create_leaf_unique; eauto.
+      + intros q Hq. assert (Hp : is_prefix audit q = false).
+        { destruct (is_prefix audit q) eqn:E; auto. rewrite (okA_audit_below q E) in Hq. discriminate. }
+        split.
+        * unfold stat, create; simpl. apply t_stat_put_other. exact Hp.
+        * intros j Sj. unfold inode_of, create; simpl. apply ino_get_set_other. pose proof (Hf q j Sj). lia.
+  Qed.
+
+  Lemma loop_confined : forall todo fs done,
+    linv fs -> snd (extract_loop fuel fs audit dest done todo) = false ->
+    same_outside okA fs (fst (fst (extract_loop fuel fs audit dest done todo))).
+  Proof.
+    induction todo as [|f rest IH]; intros fs done HL Hk; cbn [extract_loop fst snd] in *; [apply same_outside_refl|].
+    destruct (starts_with CONTENT_PREFIX (m_name f)).
+    - destruct (is_lnk (m_kind f) && negb (starts_with CONTENT_PREFIX (m_link f))); [apply same_outside_refl|].
+      set (f' := mkMember (drop8 (m_name f)) (m_kind f) (if is_lnk (m_kind f) then drop8 (m_link f) else m_link f)
+                          (m_mode f) (m_data f)) in *.
+      set (r := tar_extract fuel fs dest f' (negb (is_lnk (m_kind f))) done (rev rest ++ f' :: done)) in *.
+      assert (Hsa : m_kind f' = MLnk -> negb (is_lnk (m_kind f)) = false).
+      { simpl. intros E. rewrite E. reflexivity. }
+      assert (Hstep : x_nmk r = false -> linv (x_fs r) /\ same_outside okA fs (x_fs r)).
+      { intros Hn. destruct (member_step fs f' _ done (rev rest ++ f' :: done) HL Hsa Hn) as [H1 H2].
+        split; [exact H1|]. eapply same_outside_weaken; [|exact H2]. apply okA_ok1. }
+      destruct (x_st r); destruct (x_consumed r); simpl in *;
+        try (apply Hstep; exact Hk);
+        (destruct (extract_loop fuel (x_fs r) audit dest (f' :: done) rest) as [[fs2 o] k] eqn:El; simpl in *;
+         apply orb_false_iff in Hk as [Hk1 Hk2]; destruct (Hstep Hk1) as [H1 H2];
+         eapply same_outside_trans; [exact H2|];
+         specialize (IH (x_fs r) (f' :: done) H1); rewrite El in IH; apply IH; exact Hk2).
+    - destruct (str_eqb (m_name f) AUDIT_NAME).
+      + destruct (m_kind f); try apply same_outside_refl.
+        destruct (audit_step fs (m_data f) HL) as [H1 H2].
+        destruct (sys_write fuel fs audit (m_data f)) as [fs1 [e|]]; simpl in *; [exact H2|].
+        eapply same_outside_trans; [exact H2|]. apply IH; assumption.
+      + destruct (str_eqb (m_name f) CONTENT_NAME || str_eqb (m_name f) META_NAME); [|apply same_outside_refl].
+        apply IH; assumption.
+  Qed.
+End Loop.
+
+(* ================================================================== Part 14: TarHelper._extract *)
+Lemma t_stat_put_same : forall p n t m v,
+  t_stat t p = Some (SDir m) -> t_stat (t_put t (p ++ [n]) (Some v)) (p ++ [n]) = Some v.
+Proof.
+  unfold t_stat. induction p as [|c p IH]; intros n t m v Hd.
+  - simpl in Hd. destruct t as [m0 es|j]; [|discriminate]. cbn [app t_put t_get]. rewrite assoc_set_same.
+    destruct v as [m'|i]; simpl; [|reflexivity]. destruct (assoc n es) as [[]|]; reflexivity.
+  - destruct t as [m0 es|j]; [|discriminate]. simpl in Hd.
+    destruct (assoc c es) as [ch|] eqn:Ea; [|discriminate].
+    cbn [app t_put]. destruct (p ++ [n]) eqn:Epn; [destruct p; discriminate|]. rewrite <- Epn.
+    rewrite Ea. cbn [t_get]. rewrite assoc_set_same. eapply IH. exact Hd.
+Qed.
+
+Section Prologue.
+  Variable dest audit : path.
+  Variable fuel : nat.
+  Hypothesis dest_plain : plain dest.
+  Hypothesis audit_plain : plain audit.
+  Hypothesis Hda : is_prefix dest audit = false.
+  Hypothesis Had : is_prefix audit dest = false.
+
+  Lemma okA_ext : forall p r, okA dest audit p = true -> okA dest audit (p ++ r) = true.
+  Proof.
+    unfold okA, allowed. intros p r H. apply orb_true_iff in H as [H|H];
+      rewrite (is_prefix_app_r _ _ r H); [reflexivity|apply orb_true_r].
+  Qed.
+
+  Lemma put_okA : forall fs l v, okA dest audit l = true -> same_outside (okA dest audit) fs (put fs l v).
+  Proof.
+    intros fs l v Hl q Hq. split; [|reflexivity].
+    unfold stat, put; simpl. apply t_stat_put_other.
+    apply (ok_not_below (okA dest audit) okA_ext); assumption.
+  Qed.
+
+  Lemma okA_dest : okA dest audit dest = true.
+  Proof. unfold okA, allowed. rewrite is_prefix_refl. reflexivity. Qed.
+  Lemma okA_audit : okA dest audit audit = true.
+  Proof. unfold okA, allowed. rewrite is_prefix_refl. apply orb_true_r. Qed.
+
+  Lemma remove_path_outside : forall fs p, okA dest audit p = true ->
+    same_outside (okA dest audit) fs (remove_path fuel fs p).
+  Proof. intros fs p Hp. unfold remove_path. destruct (stat fs p); [apply put_okA; exact Hp|apply same_outside_refl]. Qed.
+
+  Lemma remove_path_gone : forall fs p q, p <> [] -> is_prefix p q = true -> stat (remove_path fuel fs p) q = None.
+  Proof.
+    intros fs p q Hp Hq. unfold remove_path. destruct (stat fs p) eqn:Es.
+    - unfold stat, put; simpl.
+      destruct (t_stat_put_at_below p (f_root fs) None q Hp Hq (or_introl eq_refl)) as [[_ [H|H]]|[_ H]]; exact H.
+    - apply is_prefix_app in Hq as [r ->]. apply t_stat_none_below. exact Es.
+  Qed.
+
+  Lemma remove_path_other : forall fs p q, is_prefix p q = false -> stat (remove_path fuel fs p) q = stat fs q.
+  Proof.
+    intros fs p q Hq. unfold remove_path. destruct (stat fs p); [|reflexivity].
+    unfold stat, put; simpl. apply t_stat_put_other. exact Hq.
+  Qed.
+
+  Lemma remove_path_leaf : forall fs p q i, stat (remove_path fuel fs p) q = Some (SLeaf i) -> stat fs q = Some (SLeaf i).
+  Proof.
+    intros fs p q i. unfold remove_path. destruct (stat fs p); [|auto].
+    unfold stat, put; simpl. intros H. apply t_stat_put_leaf in H as [H|H]; [exact H|discriminate].
+  Qed.
+
+  Lemma remove_path_tab : forall fs p, f_inodes (remove_path fuel fs p) = f_inodes fs /\ f_next (remove_path fuel fs p) = f_next fs.
+  Proof. intros. unfold remove_path. destruct (stat fs p); split; reflexivity. Qed.
+
+  Definition condP (fs : fsys) : Prop :=
+    (forall a b, dest = a ++ b -> a <> [] -> sym_at fs a = None) /\
+    (forall a b, dest = a ++ b -> b <> [] -> stat fs a <> None).
+
+  Lemma mkdir_plain_step : forall fs nm rest m,
+    dest = nm ++ rest -> condP fs ->
+    (rest <> [] -> fst (sys_mkdir fuel fs nm m) = fs) /\
+    (rest = [] -> (fst (sys_mkdir fuel fs nm m) = fs /\ snd (sys_mkdir fuel fs nm m) <> None) \/
+                  (sys_mkdir fuel fs nm m = (put fs dest (Some (SDir m)), None) /\ stat fs dest = None)).
+  Proof.
+    intros fs nm rest m Hd [C1 C2]. unfold sys_mkdir.
+    destruct (kres fuel fs [] false [] nm) as [x|] eqn:Ek.
+    - assert (Hx : x = nm).
+      { apply kres_plain in Ek; auto.
+        - rewrite Hd in dest_plain. apply plain_app in dest_plain. tauto.
+        - intros a b E Ha. apply (C1 a (b ++ rest)); [rewrite Hd, E, app_assoc; reflexivity|exact Ha]. }
+      subst x. destruct (stat fs nm) eqn:Es; simpl.
+      + split; [reflexivity|]. intros _. left. split; [reflexivity|discriminate].
+      + split.
+        * intros Hr. exfalso. apply (C2 nm rest Hd Hr). exact Es.
+        * intros Hr. subst rest. rewrite app_nil_r in Hd. subst nm. right. split; [reflexivity|exact Es].
+    - simpl. split; [reflexivity|]. intros _. left. split; [reflexivity|discriminate].
+  Qed.
+
+  Lemma plain_not_dot : forall c, skip_comp c = false -> is_nil c = false /\ str_eqb c n_dot = false.
+  Proof.
+    intros c H. unfold skip_comp in H. apply orb_false_iff in H as [H1 H2]. split; [|exact H2].
+    destruct c; [discriminate|reflexivity].
+  Qed.
+
+  Lemma makedirs_plain : forall r fs rest,
+    dest = rev r ++ rest -> condP fs ->
+    (rest <> [] -> fst (makedirs_rev fuel fs r) = fs) /\
+    (rest = [] -> (fst (makedirs_rev fuel fs r) = fs /\ snd (makedirs_rev fuel fs r) <> None) \/
+                  (makedirs_rev fuel fs r = (put fs dest (Some (SDir DEFAULT_DIR_MODE)), None) /\ stat fs dest = None)).
+  Proof.
+    induction r as [|tail rh IH]; intros fs rest Hd HC.
+    - simpl. split; [reflexivity|]. intros _. left. split; [reflexivity|discriminate].
+    - cbn [makedirs_rev].
+      assert (Hd' : dest = rev rh ++ (tail :: rest)).
+      { rewrite Hd. simpl. rewrite <- app_assoc. reflexivity. }
+      assert (Ht : skip_comp tail = false).
+      { rewrite Hd' in dest_plain. apply plain_app in dest_plain as [_ H]. apply plain_cons in H. tauto. }
+      destruct (plain_not_dot tail Ht) as [Hn Hdot]. rewrite Hn.
+      destruct (IH fs (tail :: rest) Hd' HC) as [IH1 _].
+      specialize (IH1 ltac:(discriminate)).
+      assert (Hname : dest = rev (tail :: rh) ++ rest) by exact Hd.
+      pose proof (mkdir_plain_step fs (rev (tail :: rh)) rest DEFAULT_DIR_MODE Hname HC) as Hstep.
+      destruct (negb (sys_exists fuel fs (rev (drop_empty_front rh)))); [|exact Hstep].
+      destruct (makedirs_rev fuel fs rh) as [fs1 e1]. simpl in IH1. subst fs1.
+      destruct e1 as [[|]|]; try exact Hstep; try (rewrite Hdot; exact Hstep).
+      split; [reflexivity|]. intros _. left. split; [reflexivity|discriminate].
+  Qed.
+
+  Lemma strict_prefix_not : forall (d x b : path), d = x ++ b -> b <> [] -> is_prefix d x = false.
+  Proof.
+    intros d x b E Hb. destruct (is_prefix d x) eqn:H; auto.
+    apply is_prefix_app in H as [r Hr]. exfalso. apply Hb.
+    assert (L : (length d = length d + length r + length b)%nat).
+    { rewrite E at 1. rewrite Hr. rewrite !app_length. lia. }
+    destruct b; [reflexivity|simpl in L; lia].
+  Qed.
+
+  Lemma strict_prefix_outside : forall x b, dest = x ++ b -> b <> [] -> okA dest audit x = false.
+  Proof.
+    intros x b E Hb. unfold okA, allowed. rewrite (strict_prefix_not dest x b E Hb). simpl.
+    destruct (is_prefix audit x) eqn:H; auto.
+    assert (Hx : is_prefix x dest = true) by (apply is_prefix_app; exists b; exact E).
+    rewrite (is_prefix_trans _ _ _ H Hx) in Had. discriminate.
+  Qed.
+
+  Theorem extract_confined_partial_proof : forall fs a,
+    fresh_ok fs ->
+    (forall q, okA dest audit q = false -> sym_at fs q = None) ->
+    (forall x b, dest = x ++ b -> b <> [] -> is_dir fs x = true) ->
+    snd (bob_extract fuel fs audit dest a) = false ->
+    same_outside (okA dest audit) fs (fst (fst (bob_extract fuel fs audit dest a))).
+  Proof.
+    intros fs a Hf Hsym Hanc Hk.
+    assert (Hdne : dest <> []) by (intros E; rewrite E in Hda; simpl in Hda; discriminate).
+    assert (Hane : audit <> []) by (intros E; rewrite E in Had; simpl in Had; discriminate).
+    unfold bob_extract in *.
+    set (fs1 := remove_path fuel fs audit) in *.
+    set (fs2 := remove_path fuel fs1 dest) in *.
+    assert (O12 : same_outside (okA dest audit) fs fs2).
+    { eapply same_outside_trans; [apply remove_path_outside; apply okA_audit|apply remove_path_outside; apply okA_dest]. }
+    assert (Hdest2 : forall q, is_prefix dest q = true -> stat fs2 q = None).
+    { intros q Hq. apply remove_path_gone; assumption. }
+    assert (Haud2 : forall q, is_prefix audit q = true -> stat fs2 q = None).
+    { intros q Hq. unfold fs2. rewrite remove_path_other.
+      - apply remove_path_gone; assumption.
+      - destruct (is_prefix dest q) eqn:E; auto.
+        destruct (is_prefix_comparable dest audit q E Hq) as [H|H]; congruence. }
+    assert (Hsym2 : forall q, okA dest audit q = false -> sym_at fs2 q = None).
+    { intros q Hq. rewrite <- (Hsym q Hq). destruct (O12 q Hq) as [E1 E2]. apply sym_at_outside_eq; assumption. }
+    assert (HC : condP fs2).
+    { split.
+      - intros x b E Hx. destruct b as [|c b].
+        + rewrite app_nil_r in E. subst x. unfold sym_at. rewrite (Hdest2 dest (is_prefix_refl _)). reflexivity.
+        + apply Hsym2. eapply strict_prefix_outside; [exact E|discriminate].
+      - intros x b E Hb. destruct (O12 x (strict_prefix_outside x b E Hb)) as [E1 _]. rewrite E1.
+        specialize (Hanc x b E Hb). unfold is_dir in Hanc. destruct (stat fs x); [discriminate|discriminate]. }
+    assert (Hmk : dest = rev (rev dest) ++ []) by (rewrite rev_involutive, app_nil_r; reflexivity).
+    destruct (makedirs_plain (rev dest) fs2 [] Hmk HC) as [_ Hm]. specialize (Hm eq_refl).
+    unfold makedirs in *.
+    destruct Hm as [[Hm1 Hm2]|[Hm1 Hm2]].
+    - destruct (makedirs_rev fuel fs2 (rev dest)) as [fs3 [e|]]; simpl in *; [subst fs3; exact O12|contradiction].
+    - rewrite Hm1 in *. set (fs3 := put fs2 dest (Some (SDir DEFAULT_DIR_MODE))) in *.
+      assert (O13 : same_outside (okA dest audit) fs fs3).
+      { eapply same_outside_trans; [exact O12|apply put_okA; apply okA_dest]. }
+      assert (Hleaf3 : forall p i, stat fs3 p = Some (SLeaf i) -> stat fs p = Some (SLeaf i)).
+      { intros p i H. unfold fs3, stat, put in H; simpl in H. apply t_stat_put_leaf in H as [H|H]; [|discriminate].
+        apply (remove_path_leaf fs audit). apply (remove_path_leaf fs1 dest). exact H. }
+      assert (Hnext3 : f_next fs3 = f_next fs).
+      { unfold fs3, put; simpl. unfold fs2. rewrite (proj2 (remove_path_tab fs1 dest)).
+        apply (proj2 (remove_path_tab fs audit)). }
+      assert (Hg2 : t_get (f_root fs2) dest = None).
+      { unfold stat, t_stat in Hm2. destruct (t_get (f_root fs2) dest); [discriminate|reflexivity]. }
+      assert (Hin3 : forall p, is_prefix dest p = true -> forall i, stat fs3 p <> Some (SLeaf i)).
+      { intros p Hp i H. unfold fs3, stat, put in H; simpl in H.
+        destruct (t_stat_put_at_below dest (f_root fs2) (Some (SDir DEFAULT_DIR_MODE)) p Hdne Hp (or_intror Hg2))
+          as [[_ [E|E]]|[_ E]]; rewrite E in H; discriminate. }
+      assert (HL : linv dest audit fs3).
+      { constructor.
+        - constructor.
+          + apply same_outside_refl.
+          + intros p i H. rewrite Hnext3. apply (Hf p i). apply Hleaf3. exact H.
+          + intros p q i Hp Hq Sp Sq. exact (Hin3 p Hp i Sp).
+          + intros q Hq. unfold ok1 in Hq.
+            assert (E : stat fs3 q = stat fs2 q) by (unfold fs3, stat, put; simpl; apply t_stat_put_other; exact Hq).
+            assert (Es : sym_at fs3 q = sym_at fs2 q) by (unfold sym_at; rewrite E; reflexivity).
+            rewrite Es. destruct (is_prefix audit q) eqn:Ea.
+            * unfold sym_at. rewrite (Haud2 q Ea). reflexivity.
+            * apply Hsym2. unfold okA, allowed. rewrite Hq, Ea. reflexivity.
+        - unfold is_dir.
+          rewrite (app_removelast_last (l:=dest) [] Hdne).
+          assert (Hpar : exists m, stat fs2 (removelast dest) = Some (SDir m)).
+          { assert (E : dest = removelast dest ++ [last dest []]) by (apply app_removelast_last; exact Hdne).
+            assert (Hb : [last dest []] <> []) by discriminate.
+            destruct (O12 _ (strict_prefix_outside _ _ E Hb)) as [E1 _]. rewrite E1.
+            specialize (Hanc _ _ E Hb). unfold is_dir in Hanc.
+            destruct (stat fs (removelast dest)) as [[m|i]|]; try discriminate. eauto. }
+          destruct Hpar as [m Hpar]. unfold fs3, stat, put; simpl.
+          rewrite <- (app_removelast_last (l:=dest) [] Hdne) at 1.
+          rewrite (app_removelast_last (l:=dest) [] Hdne) at 1 2.
+          unfold stat in Hpar. rewrite (t_stat_put_same _ _ _ m _ Hpar). reflexivity.
+        - left. unfold fs3, stat, put; simpl. rewrite t_stat_put_other by exact Hda.
+          apply (Haud2 audit (is_prefix_refl _)).
+        - intros q i H. exfalso. unfold fs3, stat, put in H; simpl in H. rewrite t_stat_put_other in H by exact Hda.
+          pose proof (Haud2 audit (is_prefix_refl _)) as H0. unfold stat in H0. rewrite H0 in H. discriminate. }
+      destruct (a_pax a) as [v|]; [|exact O13].
+      destruct (str_eqb v VSN_ONE); [|exact O13].
+      pose proof (loop_confined dest audit fuel dest_plain audit_plain Hda Had (a_members a) fs3 [] HL) as Hloop.
+      destruct (extract_loop fuel fs3 audit dest [] (a_members a)) as [[fs4 o] k] eqn:El.
+      simpl in Hloop. eapply same_outside_trans; [exact O13|].
+      destruct o; simpl in *; apply Hloop; exact Hk.
+  Qed.
+End Prologue.
+
+(* ================================================================== Part 15: the diagnostic flag implies rejection; rejection theorems *)
+Lemma finish_flags : forall fuel t m sa r,
+  x_consumed (finish fuel t m sa r) = x_consumed r /\ x_nmk (finish fuel t m sa r) = x_nmk r.
+Proof.
+  intros. unfold finish. destruct (x_st r); auto.
+  destruct (apply_attrs fuel (x_fs r) t m sa) as [fs2 [|]]; auto.
+Qed.
+
+Lemma member_body_flag : forall rec fuel fs t s m sa nested before whole,
+  x_nmk (member_body rec fuel fs t s m sa nested before whole) = true ->
+  x_consumed (member_body rec fuel fs t s m sa nested before whole) = true.
+Proof.
+  intros rec fuel fs t s m sa nested before whole. unfold member_body.
+  destruct (m_kind m).
+  - destruct nested; [simpl; discriminate|].
+    destruct (sys_write fuel fs t (m_data m)) as [fs1 [e|]]; [simpl; discriminate|].
+    destruct (finish_flags fuel t m sa (mkX fs1 MOk false false)) as [E1 E2]. rewrite E1, E2. simpl. discriminate.
+  - destruct (sys_mkdir fuel fs t 448) as [fs1 [[|]|]]; try (simpl; discriminate);
+      destruct (finish_flags fuel t m sa (mkX fs1 MOk false false)) as [E1 E2]; rewrite E1, E2; simpl; discriminate.
+  - destruct (if sys_lexists fuel fs t then sys_unlink fuel fs t else (fs, None)) as [fs1 [e1|]].
+    + match goal with |- x_nmk (finish _ _ _ _ ?r) = true -> _ =>
+        destruct (finish_flags fuel t m sa r) as [E1 E2]; rewrite E1, E2 end.
+      destruct (find_member (sym_search_name m) whole); simpl; auto.
+    + destruct (sys_mknode fuel fs1 t (mknode_of m)) as [fs2 [e|]].
+      * match goal with |- x_nmk (finish _ _ _ _ ?r) = true -> _ =>
+          destruct (finish_flags fuel t m sa r) as [E1 E2]; rewrite E1, E2 end.
+        destruct (find_member (sym_search_name m) whole); simpl; auto.
+      * destruct (finish_flags fuel t m sa (mkX fs2 MOk false false)) as [E1 E2]. rewrite E1, E2. simpl. discriminate.
+  - destruct s as [src|]; [|simpl; discriminate].
+    destruct (sys_exists fuel fs src).
+    + destruct (sys_link fuel fs src t) as [fs1 [e|]].
+      * match goal with |- x_nmk (finish _ _ _ _ ?r) = true -> _ =>
+          destruct (finish_flags fuel t m sa r) as [E1 E2]; rewrite E1, E2 end.
+        destruct (find_member (normname (m_link m)) before); simpl; auto.
+      * destruct (finish_flags fuel t m sa (mkX fs1 MOk false false)) as [E1 E2]. rewrite E1, E2. simpl. discriminate.
+    + match goal with |- x_nmk (finish _ _ _ _ ?r) = true -> _ =>
+        destruct (finish_flags fuel t m sa r) as [E1 E2]; rewrite E1, E2 end.
+      destruct (find_member (normname (m_link m)) before); simpl; auto.
+  - destruct (sys_mknode fuel fs t (mknode_of m)) as [fs1 [e|]]; [simpl; discriminate|].
+    destruct (finish_flags fuel t m sa (mkX fs1 MOk false false)) as [E1 E2]. rewrite E1, E2. simpl. discriminate.
+  - destruct (sys_mknode fuel fs t (mknode_of m)) as [fs1 [e|]]; [simpl; discriminate|].
+    destruct (finish_flags fuel t m sa (mkX fs1 MOk false false)) as [E1 E2]. rewrite E1, E2. simpl. discriminate.
+  - destruct (sys_mknode fuel fs t (mknode_of m)) as [fs1 [e|]]; [simpl; discriminate|].
+    destruct (finish_flags fuel t m sa (mkX fs1 MOk false false)) as [E1 E2]. rewrite E1, E2. simpl. discriminate.
+Qed.
+
+Lemma tar_extract_flag : forall fuel fs dest m sa before whole,
+  x_nmk (tar_extract fuel fs dest m sa before whole) = true ->
+  x_consumed (tar_extract fuel fs dest m sa before whole) = true.
+Proof.
+  intros fuel fs dest m sa before whole. unfold tar_extract.
+  destruct (tar_filter fuel fs dest m) as [nm|]; [|simpl; discriminate].
+  cbn [extract_member]. rewrite andb_false_l.
+  match goal with |- context [if ?c then makedirs ?a ?b ?d else _] => destruct (if c then makedirs a b d else (fs, None)) as [fsm [e|]] end;
+    [simpl; discriminate|].
+  simpl. apply member_body_flag.
+Qed.
+
+(* the flag is only ever raised on a rejected extraction *)
+Lemma extract_loop_flag : forall fuel todo fs audit dest done,
+  snd (extract_loop fuel fs audit dest done todo) = true ->
+  snd (fst (extract_loop fuel fs audit dest done todo)) = Rejected.
+Proof.
+  intros fuel. induction todo as [|f rest IH]; intros fs audit dest done; cbn [extract_loop fst snd]; [discriminate|].
+  destruct (starts_with CONTENT_PREFIX (m_name f)).
+  - destruct (is_lnk (m_kind f) && negb (starts_with CONTENT_PREFIX (m_link f))); [simpl; discriminate|].
+    match goal with |- context [tar_extract ?a ?b ?c ?d ?e ?g ?h] => set (r := tar_extract a b c d e g h) end.
+    pose proof (tar_extract_flag _ _ _ _ _ _ _ : x_nmk r = true -> x_consumed r = true) as Hf.
+    destruct (x_st r); destruct (x_consumed r) eqn:Ec; simpl; auto;
+      (match goal with |- context [extract_loop ?a ?b ?c ?d ?e ?g] =>
+         specialize (IH b c d e); destruct (extract_loop a b c d e g) as [[fs2 o] k] end;
+       simpl in *; intros H; apply orb_true_iff in H as [H|H]; [specialize (Hf H); discriminate|auto]).
+  - destruct (str_eqb (m_name f) AUDIT_NAME).
+    + destruct (m_kind f); try (simpl; discriminate).
+      destruct (sys_write fuel fs audit (m_data f)) as [fs1 [e|]]; [simpl; discriminate|]. apply IH.
+    + destruct (str_eqb (m_name f) CONTENT_NAME || str_eqb (m_name f) META_NAME); [apply IH|simpl; discriminate].
+Qed.
+
+Lemma bob_extract_flag : forall fuel fs audit dest a,
+  snd (fst (bob_extract fuel fs audit dest a)) = Extracted -> snd (bob_extract fuel fs audit dest a) = false.
+Proof.
+  intros fuel fs audit dest a. unfold bob_extract.
+  destruct (makedirs fuel (remove_path fuel (remove_path fuel fs audit) dest) dest) as [fs3 [e|]]; [simpl; discriminate|].
+  destruct (a_pax a) as [v|]; [|simpl; discriminate].
+  destruct (str_eqb v VSN_ONE); [|simpl; discriminate].
+  pose proof (extract_loop_flag fuel (a_members a) fs3 audit dest []) as H.
+  destruct (extract_loop fuel fs3 audit dest [] (a_members a)) as [[fs4 o] k]. simpl in *.
+  destruct o; simpl.
+  - intros _. destruct k; [specialize (H eq_refl); discriminate|reflexivity].
+  - discriminate.
+Qed.
+
+(* ---- what an extraction that is not rejected implies about the artifact *)
+
+Lemma extract_loop_classified : forall fuel todo fs audit dest done,
+  snd (fst (extract_loop fuel fs audit dest done todo)) = Extracted -> forallb classified todo = true.
+Proof.
+  intros fuel. induction todo as [|f rest IH]; intros fs audit dest done; cbn [extract_loop fst snd forallb]; [reflexivity|].
+  unfold classified at 1.
+  destruct (starts_with CONTENT_PREFIX (m_name f)).
+  - destruct (is_lnk (m_kind f) && negb (starts_with CONTENT_PREFIX (m_link f))); [simpl; discriminate|].
+    match goal with |- context [tar_extract ?a ?b ?c ?d ?e ?g ?h] => set (r := tar_extract a b c d e g h) end.
+    destruct (x_st r); destruct (x_consumed r); simpl; try discriminate;
+      (match goal with |- context [extract_loop ?a ?b ?c ?d ?e ?g] =>
+         specialize (IH b c d e); destruct (extract_loop a b c d e g) as [[fs2 o] k] end; simpl in *; exact IH).
+  - destruct (str_eqb (m_name f) AUDIT_NAME); simpl.
+    + destruct (m_kind f); try (simpl; discriminate).
+      destruct (sys_write fuel fs audit (m_data f)) as [fs1 [e|]]; [simpl; discriminate|]. apply IH.
+    + destruct (str_eqb (m_name f) CONTENT_NAME || str_eqb (m_name f) META_NAME); [apply IH|simpl; discriminate].
+Qed.
+
+Lemma bob_extract_accepts : forall fuel fs audit dest a,
+  snd (fst (bob_extract fuel fs audit dest a)) = Extracted ->
+  a_pax a = Some VSN_ONE /\ forallb classified (a_members a) = true /\ a_tail_ok a = true.
+Proof.
+  intros fuel fs audit dest a. unfold bob_extract.
+  destruct (makedirs fuel (remove_path fuel (remove_path fuel fs audit) dest) dest) as [fs3 [e|]]; [simpl; discriminate|].
+  destruct (a_pax a) as [v|]; [|simpl; discriminate].
+  destruct (str_eqb v VSN_ONE) eqn:Ev; [|simpl; discriminate].
+  apply str_eqb_eq in Ev. subst v.
+  pose proof (extract_loop_classified fuel (a_members a) fs3 audit dest []) as H.
+  destruct (extract_loop fuel fs3 audit dest [] (a_members a)) as [[fs4 o] k]. simpl in *.
+  destruct o; simpl; [|discriminate].
+  destruct (a_tail_ok a); [|discriminate]. intros _. auto.
+Qed.
+
+Lemma download_accept : forall (H : str -> str) (recorded : str -> option str) fuel fs audit dest a fs' h,
+  download H recorded fuel fs audit dest a = (fs', Accepted h) ->
+  exists art ab k, a = Some art /\ bob_extract fuel fs audit dest art = (fs', Extracted, k) /\
+    sys_exists fuel fs' audit = true /\
+    audit_bytes fs' audit = Some ab /\ recorded ab = Some h /\ hash_dir H fs' dest = Some h.
+Proof.
+  intros H recorded fuel fs audit dest a fs' h. unfold download.
+  destruct a as [art|]; [|discriminate].
+  destruct (bob_extract fuel fs audit dest art) as [[fs1 [|]] k] eqn:Eb; [|discriminate].
+  destruct (sys_exists fuel fs1 audit) eqn:Ee; simpl; [|discriminate].
+  destruct (audit_bytes fs1 audit) as [ab|] eqn:Ea; [|discriminate].
+  destruct (hash_dir H fs1 dest) as [hh|] eqn:Eh; [|discriminate].
+  destruct (recorded ab) as [rh|] eqn:Er; [|discriminate].
+  destruct (str_eqb rh hh) eqn:Es; [|discriminate].
+  apply str_eqb_eq in Es. subst rh. intros E. inversion E; subst.
+  exists art, ab, k. auto 10.
+Qed.
+
+(* ================================================================== the statements of Properties.v *)
+Lemma extract_confined_partial_stmt : forall fuel fs audit dest a,
+  plain dest -> plain audit ->
+  is_prefix dest audit = false -> is_prefix audit dest = false ->
+  fresh_ok fs ->
+  (forall q, allowed dest audit q = false -> sym_at fs q = None) ->
+  (forall x b, dest = x ++ b -> b <> [] -> is_dir fs x = true) ->
+  snd (bob_extract fuel fs audit dest a) = false ->
+  same_outside (allowed dest audit) fs (fst (fst (bob_extract fuel fs audit dest a))).
+Proof.
+  intros fuel fs audit dest a Hd Ha H1 H2 Hf Hs Hp Hk.
+  exact (extract_confined_partial_proof dest audit fuel Hd Ha H1 H2 fs a Hf Hs Hp Hk).
+Qed.
+
+Lemma accepted_extraction_confined_stmt : forall fuel fs audit dest a,
+  plain dest -> plain audit ->
+  is_prefix dest audit = false -> is_prefix audit dest = false ->
+  fresh_ok fs ->
+  (forall q, allowed dest audit q = false -> sym_at fs q = None) ->
+  (forall x b, dest = x ++ b -> b <> [] -> is_dir fs x = true) ->
+  snd (fst (bob_extract fuel fs audit dest a)) = Extracted ->
+  same_outside (allowed dest audit) fs (fst (fst (bob_extract fuel fs audit dest a))).
+Proof.
+  intros fuel fs audit dest a Hd Ha H1 H2 Hf Hs Hp Hk.
+  exact (extract_confined_partial_proof dest audit fuel Hd Ha H1 H2 fs a Hf Hs Hp
+           (bob_extract_flag fuel fs audit dest a Hk)).
+Qed.
+
+Lemma member_extraction_confined_stmt : forall (ok : path -> bool) dest fuel fs0 fs m sa before whole,
+  (forall p r, ok p = true -> ok (p ++ r) = true) ->
+  (forall q, is_prefix dest q = true -> ok q = true) ->
+  nodd dest ->
+  inv ok fs0 fs /\ is_dir fs dest = true ->
+  (m_kind m = MLnk -> sa = false) ->
+  x_nmk (tar_extract fuel fs dest m sa before whole) = false ->
+  inv ok fs0 (x_fs (tar_extract fuel fs dest m sa before whole)) /\
+  is_dir (x_fs (tar_extract fuel fs dest m sa before whole)) dest = true.
+Proof.
+  intros ok dest fuel fs0 fs m sa before whole H1 H2 H3 H4 H5 H6.
+  exact (tar_extract_safe ok H1 dest H2 H3 fuel fs0 fs m sa before whole H4 H5 H6).
+Qed.
